@@ -67,8 +67,15 @@ def count_digits(number: NumericValueType) -> tuple[int, int]:
 
 
 def strictly_equal(obj1: object, obj2: object) -> bool:
-    """Checks if the objects are equal and are of the same type."""
-    return obj1 == obj2 and type(obj1) is type(obj2)
+    """
+    Checks if the objects are equal and are of the same type.
+    The items of two lists are compared in the same way.
+    """
+    if type(obj1) is not type(obj2):
+        return False
+    elif isinstance(obj1, list) and isinstance(obj2, list):
+        return len(obj1) == len(obj2) and all(map(strictly_equal, obj1, obj2))
+    return obj1 == obj2
 
 
 def raw_encode_value(value: DecodedValueType) -> Optional[str]:
